@@ -123,6 +123,8 @@ Scan(ctl, p, open, close, depth, seps) ==
 (*   err   "" or the reason format must signal an error                    *)
 (*   more  inside ~:{ : TRUE when further sublists follow (for ~:^)        *)
 (***************************************************************************)
+\* nil, also when it is written as a list without elements
+IsNil(v) == v.k = "nil" \/ (v.k = "list" /\ v.v = <<>>)
 St(out, args, ap, dev) == [out |-> out, args |-> args, ap |-> ap, stop |-> "no", err |-> "", more |-> FALSE, dev |-> dev]
 Fail(st, why) == [st EXCEPT !.err = why]
 Left(st) == Len(st.args) - st.ap + 1
@@ -138,7 +140,7 @@ Resolve(st, ps, acc) ==
     IF p.t = "v" THEN
       IF Left(st) < 1 THEN [st |-> Fail(st, "!no argument for a v parameter"), ps |-> acc]
       ELSE LET a == st.args[st.ap]  st2 == [st EXCEPT !.ap = @ + 1] IN
-           IF a.k = "nil" THEN Resolve(st2, Tail(ps), Append(acc, [t |-> "none"]))
+           IF IsNil(a) THEN Resolve(st2, Tail(ps), Append(acc, [t |-> "none"]))
            ELSE IF a.k = "chr" THEN Resolve(st2, Tail(ps), Append(acc, [t |-> "chr", v |-> a.v]))
            ELSE IF Small(a) THEN Resolve(st2, Tail(ps), Append(acc, [t |-> "int", v |-> Val(a)]))
            ELSE [st |-> Fail(st, "v parameter is neither an integer nor a character"), ps |-> acc]
@@ -185,7 +187,7 @@ Dir(ctl, d, ps, q, st) ==
       need(n, res) == IF Left(st) < n THEN Fail(st, "!not enough arguments") ELSE res
   IN
   CASE d.ch \in {"a", "s"} ->
-         need(1, put(PadA(IF arg.k = "nil" /\ d.colon THEN <<"(", ")">> ELSE IF d.ch = "a" THEN Princ(arg, st.dev) ELSE Prin1(arg), ps, d.at), 1))
+         need(1, put(PadA(IF IsNil(arg) /\ d.colon THEN <<"(", ")">> ELSE IF d.ch = "a" THEN Princ(arg, st.dev) ELSE Prin1(arg), ps, d.at), 1))
     [] d.ch \in {"d", "b", "o", "x"} ->
          need(1, IF arg.k = "int" THEN put(IntText(arg, ps, CASE d.ch = "d" -> 10 [] d.ch = "b" -> 2 [] d.ch = "o" -> 8 [] OTHER -> 16, d.colon, d.at), 1)
                  ELSE put(Rep(Par(ps, 2, " "), Par(ps, 1, 0) - Len(Princ(arg, st.dev))) \o Princ(arg, st.dev), 1))     \* "the Aesthetic directive is used"
@@ -255,9 +257,9 @@ Dir(ctl, d, ps, q, st) ==
                   skip(s0) == Run(ctl, sc.after, q, s0)
               IN
               IF d.colon THEN     \* ~:[ false ~; true ~]
-                   need(1, IF n # 2 THEN Fail(st, "~:[ needs two clauses") ELSE clause(IF arg.k = "nil" THEN 1 ELSE 2, [st EXCEPT !.ap = @ + 1]))
+                   need(1, IF n # 2 THEN Fail(st, "~:[ needs two clauses") ELSE clause(IF IsNil(arg) THEN 1 ELSE 2, [st EXCEPT !.ap = @ + 1]))
               ELSE IF d.at THEN   \* ~@[ : a true argument is left for the clause, nil is consumed
-                   need(1, IF arg.k = "nil" THEN skip([st EXCEPT !.ap = @ + 1]) ELSE clause(1, st))
+                   need(1, IF IsNil(arg) THEN skip([st EXCEPT !.ap = @ + 1]) ELSE clause(1, st))
               ELSE LET chosen == HasPar(ps, 1)
                        okArg == chosen \/ (Left(st) >= 1 /\ Small(arg))
                        idx == IF chosen THEN Par(ps, 1, 0) ELSE IF okArg THEN Val(arg) ELSE 0
